@@ -88,6 +88,7 @@ type gsim struct {
 	// honest precommits observed on the wire, for Byzantine replay
 	observed []observedPrecommit
 	rs       *realState
+	inSeam   bool
 }
 
 type gnode struct {
